@@ -54,8 +54,10 @@ def run_case(chk, case, tier):
     with P.workdir() as wd:
         # (a) twice in the same process, with different global numpy RNG state
         try:
-            d1, models = c08_child.analysis(dict(case, global_noise=1), wd / "a")
-            d2, _ = c08_child.analysis(dict(case, global_noise=2), wd / "b")
+            keep = {}
+            d1, models = c08_child.analysis(dict(case, global_noise=1), wd / "a", keep=keep)
+            # second run in the same process, re-using the Proteins object of the first
+            d2, _ = c08_child.analysis(dict(case, global_noise=2), wd / "b", proteins_in=keep.get("proteins"))
         except Exception as e:
             chk.reject("analysis-failed:" + type(e).__name__ + ":" + str(e)[:60])
             return
